@@ -51,17 +51,43 @@ def main():
                 lo, hi = (ks[job["range"][0]], ks[job["range"][1]]) if ks else (0, 0)
                 seq = (t.items if (src == "items-range" and not setlike) else t.keys)(km.k(lo), km.k(hi))
             outcomes, bad = [], None
+            ever = set(job["keys"])          # every key that has ever been in the container
+
+            def is_entry(x):
+                """what a step hands out must be (made of) a key / value that was stored at some time"""
+                def key_ok(k):
+                    try:
+                        return km.ik(k) in ever
+                    except Exception:  # noqa
+                        return False
+
+                def val_ok(v):
+                    try:
+                        vm.iv(v); return True
+                    except Exception:  # noqa
+                        return False
+                if isinstance(x, tuple) and len(x) == 2 and not setlike and f.kk != "O":
+                    return key_ok(x[0]) and val_ok(x[1])
+                if isinstance(x, tuple) and len(x) == 2 and not setlike and key_ok(x[0]):
+                    return val_ok(x[1])
+                return key_ok(x) or (not setlike and val_ok(x))
             for st in job["steps"]:
                 try:
                     if st[0] == "next":
                         try:
-                            next(it)
+                            x = next(it)
                             outcomes.append("entry")
+                            if not is_entry(x):
+                                bad = "next-yielded-something-that-never-was-an-entry:%r" % (x,)
+                                break
                         except StopIteration:
                             outcomes.append("stop")
                     elif st[0] == "index":
-                        seq[st[1]]
+                        x = seq[st[1]]
                         outcomes.append("entry")
+                        if not is_entry(x):
+                            bad = "index-returned-something-that-never-was-an-entry:%r" % (x,)
+                            break
                     elif st[0] == "len":
                         len(seq)
                         outcomes.append("entry")
@@ -77,6 +103,7 @@ def main():
                         else:
                             t[km.k(st[1])] = vm.v(1)
                         ref[st[1]] = 1
+                        ever.add(st[1])
                     elif st[0] == "del":
                         if st[1] in ref:
                             if setlike:
